@@ -29,6 +29,8 @@ def run(model, rep, tier):
     A(row_carry, model, rep, r)
     A(rel_update_rule, model, rep, r)
     A(config_reports, model, rep, r)
+    from . import c19
+    A(c19.r1, model, rep)      # make_diag lists exactly the live components and links (index holes, edit history)
 
 
 def order_rule(model, rep):
@@ -57,11 +59,10 @@ def index_holes(model, rep, r):
         if fn is None:
             raise AnalysisError("System.%s not found" % mname)
         src = ast.unparse(fn)
-        sized = [x for x in ast.walk(fn) if isinstance(x, ast.BinOp) and isinstance(x.op, ast.Add) and ast.unparse(x).replace(" ", "") in
-                 ("max(nodes)+1", "max(self._get_nodes())+1", "1+max(nodes)", "1+max(self._get_nodes())")]
+        nodevars = {x.targets[0].id for x in ast.walk(fn) if isinstance(x, ast.Assign) and isinstance(x.targets[0], ast.Name) and ast.unparse(x.value) == "self._get_nodes()"}
+        accepted = {"max(self._get_nodes())+1", "1+max(self._get_nodes())"} | {"max(%s)+1" % v for v in nodevars} | {"1+max(%s)" % v for v in nodevars}
+        sized = [x for x in ast.walk(fn) if isinstance(x, ast.BinOp) and isinstance(x.op, ast.Add) and ast.unparse(x).replace(" ", "") in accepted]
         good = bool(sized)
-        if mname != "_sys_vars":
-            good = good and "self._get_nodes()" in src
         if not good:
             ok = False
             rep.violation("R3", "system.System.%s" % mname, "%s:%d" % (rel, fn.lineno), "a vector indexed by node index is not sized by the highest live node index + 1 (deleted nodes leave index holes)", "vector size " + mname)
@@ -172,8 +173,12 @@ def config_reports(model, rep, r):
             elif isinstance(e, ast.Call) and ast.unparse(e.func) == "self._filt_lim" and len(e.args) == 2 and isinstance(e.args[1], ast.Constant):
                 var_key.setdefault(x.target.id, []).append(("limit", e.args[1].value))
     hdr = {}
+    frames = [c for c in ast.walk(fn) if isinstance(c, ast.Call) and ast.unparse(c.func) == "pd.DataFrame" and c.args and isinstance(c.args[0], ast.Name)]
+    if len(frames) != 1:
+        raise AnalysisError("_pars_and_limits: result frame not found")
+    RES = frames[0].args[0].id
     for x in ast.walk(fn):
-        if isinstance(x, ast.Assign) and isinstance(x.targets[0], ast.Subscript) and is_name(x.targets[0].value, "res") and isinstance(x.value, ast.Name):
+        if isinstance(x, ast.Assign) and isinstance(x.targets[0], ast.Subscript) and is_name(x.targets[0].value, RES) and isinstance(x.value, ast.Name):
             s = x.targets[0].slice
             text = s.value if isinstance(s, ast.Constant) else (s.func.value.value if isinstance(s, ast.Call) and isinstance(s.func, ast.Attribute) and isinstance(s.func.value, ast.Constant) else None)
             if text is not None:
@@ -203,8 +208,16 @@ def config_reports(model, rep, r):
     rep.instance("R5", "system.System._pars_and_limits column routing", where, ok, "%d columns" % len(hdr))
     # _get_params: tables as 'interp', otherwise the stored value
     gp = model.method("_Component", "_get_params")[1]
-    src = ast.unparse(gp)
-    ok = "isinstance(self._params[param], dict)" in src and "= 'interp'" in src and "= self._params[param]" in src
+    ok = False
+    for lp in ast.walk(gp):
+        if isinstance(lp, ast.For) and isinstance(lp.target, ast.Name):
+            k = lp.target.id
+            for iff in ast.walk(lp):
+                if isinstance(iff, ast.If) and ast.unparse(iff.test).replace(" ", "") == "isinstance(self._params[%s],dict)" % k and len(iff.body) == 1 and len(iff.orelse) == 1:
+                    b, o = iff.body[0], iff.orelse[0]
+                    if isinstance(b, ast.Assign) and isinstance(o, ast.Assign) and ast.unparse(b.value).replace('"', "'") == "'interp'" and ast.unparse(o.value) == "self._params[%s]" % k \
+                            and ast.unparse(b.targets[0]) == ast.unparse(o.targets[0]) and ast.unparse(b.targets[0]).endswith("[%s]" % k):
+                        ok = True
     if not ok:
         rep.violation("R5", "components._Component._get_params", "%s:%d" % (model.rel("components"), gp.lineno), "parameters are not reported as stored (tables as 'interp')", "get_params")
     rep.instance("R5", "components._Component._get_params", "%s:%d" % (model.rel("components"), gp.lineno), ok)
@@ -219,8 +232,12 @@ def config_reports(model, rep, r):
     ph = model.own_method("System", "phases")
     ok = True
     hd = {}
+    frames = [c for c in ast.walk(ph) if isinstance(c, ast.Call) and ast.unparse(c.func) == "pd.DataFrame" and c.args and isinstance(c.args[0], ast.Name)]
+    if len(frames) != 1:
+        raise AnalysisError("phases(): result frame not found")
+    RES2 = frames[0].args[0].id
     for x in ast.walk(ph):
-        if isinstance(x, ast.Assign) and isinstance(x.targets[0], ast.Subscript) and is_name(x.targets[0].value, "res") and isinstance(x.value, ast.Name) \
+        if isinstance(x, ast.Assign) and isinstance(x.targets[0], ast.Subscript) and is_name(x.targets[0].value, RES2) and isinstance(x.value, ast.Name) \
                 and isinstance(x.targets[0].slice, ast.Constant):
             hd[x.targets[0].slice.value.split()[0]] = x.value.id
     branches = 0
@@ -229,8 +246,9 @@ def config_reports(model, rep, r):
             t = ast.unparse(iff.test).replace('"', "'")
             key = None
             for k in ("pwr", "rs", "ii"):
-                if t == "'%s' in self._g[n]._params" % k:
+                if t.startswith("'%s' in self._g[" % k) and t.endswith("]._params"):
                     key = k
+                    NV = t[len("'%s' in self._g[" % k):-len("]._params")]
             if key is None:
                 continue
             branches += 1
@@ -240,7 +258,8 @@ def config_reports(model, rep, r):
                     v = ast.unparse(x.value.elts[0]).replace('"', "'")
                     if v == "''":
                         continue
-                    if x.target.id != hd.get(key) or v not in ("self._g[n]._params['%s']" % key, "self._phase_lkup[n][p]"):
+                    pv_ok = v.startswith("self._phase_lkup[%s][" % NV) and v.endswith("]")
+                    if x.target.id != hd.get(key) or not (v == "self._g[%s]._params['%s']" % (NV, key) or pv_ok):
                         ok = False
                         rep.violation("R5", "system.System.phases", "%s:%d" % (rel, x.lineno), "for a load configured by '%s' the value %s goes to the list '%s'" % (key, v, x.target.id), "phases column " + key)
     if branches < 2:
